@@ -144,6 +144,9 @@ def run_update(root, has_remote, R, L, T, v, rnd, dirty=False, deleted=()):
         # history: branches that existed when the repository was cloned have been deleted upstream since
         for b in deleted:
             _git(remote, "branch", "-q", "-D", branch_str(b))
+        if deleted:
+            # the NEXT Rally run: a new RallyRepository on the existing clone (it fetches when it is constructed)
+            rr = repo.RallyRepository(remote_url=remote, root_dir=os.path.join(root, "home"), repo_name="default", resource_name="tracks", offline=False)
         local = os.path.join(root, "home", "default")
         _git(local, "config", "user.email", "v@example.org")
         _git(local, "config", "user.name", "v")
